@@ -7,6 +7,12 @@ import Ibx.Model.Smtp
     run naming=.. da=.. acc=.. rej=.. ds=.. sto=.. dis=.. ro=.. maxrcpt=N maxbytes=N cap=N domain=<hex> rhost=<hex> ts=<hex>
         ip=<tbl> re=<tbl> args=<tbl> hdr=<tbl> hookmail=<tbl> hookrcpt=<tbl> hookstored=<tbl> fail=<hexlist> budget=<n|-> inp=<hex>
         [rend=<eof|timeout|neterr>] [stall=<n>]      (C03End: how the input ends; a stall >= Timeout after n bytes; adds `bye=<hex|->`)
+        [tls=<0|1>] [force=<0|1>]                    (config.TLSEnabled as NewServer leaves it / config.ForceTLS; `inp` is the
+                                                      command stream: what the client sent in the clear followed by what it sent inside TLS)
+    wire <same fields, `pre=<hex>` instead of `inp`> bufn=<n> inner=<hex|none>
+        (C03Tls: `runWire`.  pre = the bytes sent in the clear; bufn = how many bytes behind the accepted STARTTLS line the old
+         reader had buffered; inner = what the client sends inside TLS after a successful handshake, `none` = it never completes
+         one.  The TLS library is instantiated as: the handshake succeeds iff no stray byte reaches tls.Server before it.)
   answer: the reply / store events in order, `end=<why> st=<state>`, and `dump=` the mailboxes after folding the stored
   copies into Spec.Store (cap applied).  Oracle tables: entries separated by ';', fields by '~'.
 -/
@@ -90,7 +96,9 @@ def mkEnv (kv : KV) : Option Env := do
          | some mbs, some f, some t, some sj => some { mailboxes := mbs, sender := f, rcpts := t, subject := sj }
          | _, _, _, _ => none)
       | _ => none,
-    storeFails := fun mb => fail.contains mb }
+    storeFails := fun mb => fail.contains mb,
+    tlsEnabled := kv.get? "tls" == some "1",
+    forceTLS := kv.get? "force" == some "1" }
 
 /-- every MAIL argument of the input must have an `re` entry (and its params an `args` entry) -/
 def linesOf (inp : Bytes) : Nat → List Bytes
@@ -122,6 +130,7 @@ def showSt : St → String
 
 def showEnd : End → String
   | .eof => "eof" | .quit => "quit" | .sendError => "sendError" | .dataCut => "dataCut" | .outOfFuel => "outOfFuel"
+  | .tlsFail => "tlsFail"
 
 def showEv : Ev → String
   | .reply codes => match codes with
@@ -166,7 +175,7 @@ def step (_ : Unit) (toks : List String) : Unit × String :=
         match kv.get? "rend", kv.get? "stall" with
         | none, none =>
           let (evs, s, en) := run e budget inp
-          ((), " ".intercalate (evs.map showEv) ++ s!" end={showEnd en} st={showSt s.st} hooks={hookTexts evs} dump={dump (foldStore cap evs)}")
+          ((), " ".intercalate (evs.map showEv) ++ s!" end={showEnd en} st={showSt s.st} tlsact={if s.tls then 1 else 0} hooks={hookTexts evs} dump={dump (foldStore cap evs)}")
         | rend, stall =>
           -- the input ends by `rend` (eof | timeout | neterr); `stall=<n>`: the client is silent for >= Timeout after n bytes
           match parseReadEnd (rend.getD "eof") with
@@ -177,6 +186,18 @@ def step (_ : Unit) (toks : List String) : Unit × String :=
               | none => runEnd e budget inp k
             ((), " ".intercalate (r.evs.map showEv) ++ s!" end={showEnd r.how} st={showSt r.sess.st} bye={showBye r.bye} hooks={hookTexts r.evs} dump={dump (foldStore cap r.evs)}")
     | _, _, _ => ((), "bad-op")
+  | ["wire"] =>
+    match mkEnv kv, (kv.get? "pre") >>= Bytes.ofHex, (kv.get? "cap") >>= String.toNat?, (kv.get? "bufn") >>= String.toNat?,
+          (kv.get? "inner") >>= optHex with
+    | some e, some pre, some cap, some bufn, some inner =>
+      match coverage kv (pre ++ inner.getD []) with
+      | some m => ((), m)
+      | none =>
+        let budget := (kv.get? "budget") >>= String.toNat?
+        let w : Wire := { pre := pre, buffered := bufn, tlsOpen := fun raw => if raw.isEmpty then inner else none }
+        let (evs, s, en) := runWire e budget w
+        ((), " ".intercalate (evs.map showEv) ++ s!" end={showEnd en} st={showSt s.st} tlsact={if s.tls then 1 else 0} hooks={hookTexts evs} dump={dump (foldStore cap evs)}")
+    | _, _, _, _, _ => ((), "bad-op")
   | _ => ((), "bad-op")
 
 end Driver.SmtpMode
